@@ -32,17 +32,21 @@ type cfg struct {
 	RT     string `json:"rt"`     // "one": one runtime; "cache-mem": two runtimes sharing one in-memory CompilationCache;
 	//                                   "cache-dir": two runtimes sharing one directory-backed CompilationCache value;
 	//                                   "cache-dir2": two runtimes with two CompilationCache values on the same directory
-	Variants []int  `json:"variants"`        // module variant of instance j (len = N); all equal = "same compiled module"
-	Policy   string `json:"policy"`          // "lazy": instance j is instantiated at its first step; "eager": 0,1,2 up front; "eager-rev": 2,1,0 up front
-	Shape    int    `json:"shape,omitempty"` // module shape 1..4 (guest.go); 0 = 1. All instances of a world have the same shape
-	RefDepth int    `json:"-"`               // length up to which lone references exist for this configuration (set by main)
-	Shared   bool   `json:"shared"`          // true: ONE ModuleConfig value (one stdout writer, one mount) is reused for every instance
+	Variants []int  `json:"variants"`         // module variant of instance j (len = N); all equal = "same compiled module"
+	Policy   string `json:"policy"`           // "lazy": instance j is instantiated at its first step; "eager": 0,1,2 up front; "eager-rev": 2,1,0 up front
+	CapMax   bool   `json:"capmax,omitempty"` // RuntimeConfig.WithMemoryCapacityFromMax(true): capacity 3 pages, initial size 1
+	Shape    int    `json:"shape,omitempty"`  // module shape 1..4 (guest.go); 0 = 1. All instances of a world have the same shape
+	RefDepth int    `json:"-"`                // length up to which lone references exist for this configuration (set by main)
+	Shared   bool   `json:"shared"`           // true: ONE ModuleConfig value (one stdout writer, one mount) is reused for every instance
 }
 
 func (c cfg) String() string {
 	s := fmt.Sprintf("%s/%s/v%v/%s/shared=%v", c.Engine, c.RT, c.Variants, c.Policy, c.Shared)
 	if c.shape() != 1 {
 		s += fmt.Sprintf("/shape%d", c.shape())
+	}
+	if c.CapMax {
+		s += "/capmax"
 	}
 	return s
 }
@@ -102,6 +106,16 @@ var castagnoli = crc32.MakeTable(crc32.Castagnoli)
 type hostDirs struct {
 	root  string
 	slots [3]string
+}
+
+// hostDirsAt uses the directories that another process of this run created (child processes: the inode numbers that
+// fd_readdir writes into guest memory must be the same as in the parent).
+func hostDirsAt(root string) *hostDirs {
+	h := &hostDirs{root: root}
+	for j := range h.slots {
+		h.slots[j] = filepath.Join(root, fmt.Sprintf("slot%d", j))
+	}
+	return h
 }
 
 // fatalf is fw.Fatalf (harness error, exit 2) after removing the temporary directories.
@@ -180,6 +194,7 @@ type world struct {
 	stdout   [3]*bytes.Buffer
 	mcs      [3]wazero.ModuleConfig
 	slotOf   [3]int       // mount/stdout slot of instance j (loneSlot for a lone world)
+	abs      []string     // failures of the absolute oracle during the current word
 	hostSaw  []api.Module // the api.Module values handed to env.h_refl / env.h_gomod during the current step
 }
 
@@ -218,11 +233,15 @@ func (w *world) buildEnv(rt wazero.Runtime) {
 	}
 }
 
-func rtConfig(engine string) wazero.RuntimeConfig {
+func rtConfig(engine string, capMax bool) wazero.RuntimeConfig {
+	rc := wazero.NewRuntimeConfigInterpreter()
 	if engine == "compiler" {
-		return wazero.NewRuntimeConfigCompiler()
+		rc = wazero.NewRuntimeConfigCompiler()
 	}
-	return wazero.NewRuntimeConfigInterpreter()
+	if capMax {
+		rc = rc.WithMemoryCapacityFromMax(true)
+	}
+	return rc
 }
 
 // newWorld builds runtimes, caches and compiled modules for c. loneSlot >= 0 builds the world of a LONE instance
@@ -263,7 +282,7 @@ func newWorld(c cfg, dirs *hostDirs, loneSlot int) *world {
 		need[v] = true
 	}
 	for r := 0; r < nrt; r++ {
-		rc := rtConfig(c.Engine)
+		rc := rtConfig(c.Engine, c.CapMax)
 		if len(w.caches) > 0 {
 			rc = rc.WithCompilationCache(w.caches[r%len(w.caches)])
 		}
@@ -402,7 +421,90 @@ func (w *world) instantiate(j int) *inst {
 	}
 	in := &inst{mod: mod, mi: mod.(*wasm.ModuleInstance)}
 	in.fns = make([]api.Function, len(opNames))
+	w.checkFresh(j, in)
 	return in
+}
+
+// ---------------------------------------------------------------- absolute oracle (needs no twin)
+
+// initialImage is the memory a fresh instance must have: zero except for its data segments (shape 4: what _start stores).
+var initialImage = func() (img [numShapes][2][]byte) {
+	for sh := 1; sh <= numShapes; sh++ {
+		for v := 0; v < 2; v++ {
+			b := make([]byte, 65536)
+			act := []byte("A0-active-seg!!!")
+			pas := []byte("P0-passive-seg!!")
+			act[1] += byte(v)
+			pas[1] += byte(v)
+			copy(b, act)
+			copy(b[128:], guestScratch())
+			if sh == 2 {
+				copy(b[208:], pas)
+			}
+			img[sh-1][v] = b
+		}
+	}
+	return
+}()
+
+func (w *world) absFail(format string, a ...any) {
+	if len(w.abs) < 8 {
+		w.abs = append(w.abs, fmt.Sprintf(format, a...))
+	}
+}
+
+// checkFresh: a fresh instance has exactly its initial memory image (everything outside the data segments is zero,
+// spare capacity included), its globals hold their initialisers and its table holds the active element segments.
+func (w *world) checkFresh(j int, in *inst) {
+	v, sh := w.c.Variants[j], w.c.shape()
+	mi := in.mi
+	if m := mi.MemoryInstance; m != nil {
+		if !bytes.Equal(m.Buffer, initialImage[sh-1][v]) {
+			at := 0
+			for at < len(m.Buffer) && at < 65536 && m.Buffer[at] == initialImage[sh-1][v][at] {
+				at++
+			}
+			w.absFail("fresh instance %d: memory (len %d) differs from its initial image at offset %d", j, len(m.Buffer), at)
+		}
+		spare := m.Buffer[len(m.Buffer):cap(m.Buffer)]
+		for i, b := range spare {
+			if b != 0 {
+				w.absFail("fresh instance %d: spare memory capacity is not zero at offset %d", j, len(m.Buffer)+i)
+				break
+			}
+		}
+	}
+	if g := in.mod.ExportedGlobal("g0").Get(); g != uint64(10+v) {
+		w.absFail("fresh instance %d: global g0 = %d, initialiser is %d", j, g, 10+v)
+	}
+	if g := in.mod.ExportedGlobal("g1").Get(); g != uint64(0x1111111111111111*int64(v+1)) {
+		w.absFail("fresh instance %d: global g1 = %#x, initialiser is %#x", j, g, uint64(0x1111111111111111*int64(v+1)))
+	}
+	fA := mi.Source.ImportFunctionCount // fA, fB are the first two functions of the module
+	want := fmt.Sprintf("f%d - - - ", fA)
+	switch sh {
+	case 3:
+		want = fmt.Sprintf("f%d - f%d f%d ", fA, fA+1, fA)
+	case 4:
+		want = "- - - - "
+	}
+	if got := w.refString(mi, mi.Tables[0].References); got != want {
+		w.absFail("fresh instance %d: table = [%s], active element segments give [%s]", j, got, want)
+	}
+}
+
+// checkGrown: the pages a successful memory.grow has just exposed read as zero (the grow letter writes nothing).
+func (w *world) checkGrown(j int, in *inst, oldLen int) {
+	m := in.mi.MemoryInstance
+	if m == nil || len(m.Buffer) <= oldLen {
+		return
+	}
+	for i, b := range m.Buffer[oldLen:] {
+		if b != 0 {
+			w.absFail("instance %d: page exposed by memory.grow is not zero at offset %d (value %#x)", j, oldLen+i, b)
+			return
+		}
+	}
 }
 
 // fn returns the exported function of a letter (looked up once per instance, on first use).
@@ -480,32 +582,7 @@ func (w *world) observe(j int, in *inst) (o obs) {
 	}
 	o.G0 = in.mod.ExportedGlobal("g0").Get()
 	o.G1 = in.mod.ExportedGlobal("g1").Get()
-	// Function references are resolved through the engine (engine-neutral): owner instance and function index.
-	tid := mi.TypeIDs[mi.Source.FunctionSection[0]] // type of fA/fB: () -> i32
-	refs := func(rs []wasm.Reference) string {
-		var sb strings.Builder
-		tmp := &wasm.TableInstance{References: rs, Type: wasm.RefTypeFuncref}
-		for i, r := range rs {
-			if r == 0 {
-				sb.WriteString("- ")
-				continue
-			}
-			func() {
-				defer func() {
-					if p := recover(); p != nil {
-						fmt.Fprintf(&sb, "UNRESOLVABLE(%v) ", p)
-					}
-				}()
-				owner, idx := mi.Engine.LookupFunction(tmp, tid, uint32(i))
-				if owner == mi {
-					fmt.Fprintf(&sb, "f%d ", idx)
-				} else {
-					fmt.Fprintf(&sb, "FOREIGN:f%d ", idx)
-				}
-			}()
-		}
-		return sb.String()
-	}
+	refs := func(rs []wasm.Reference) string { return w.refString(mi, rs) }
 	if len(mi.Tables) > 0 {
 		o.Table = refs(mi.Tables[0].References)
 	}
@@ -542,11 +619,39 @@ func (w *world) observe(j int, in *inst) (o obs) {
 	return
 }
 
+// refString resolves function references through the engine (engine-neutral): owner instance and function index.
+func (w *world) refString(mi *wasm.ModuleInstance, rs []wasm.Reference) string {
+	tid := mi.TypeIDs[mi.Source.FunctionSection[0]] // type of fA/fB: () -> i32
+	var sb strings.Builder
+	tmp := &wasm.TableInstance{References: rs, Type: wasm.RefTypeFuncref}
+	for i, r := range rs {
+		if r == 0 {
+			sb.WriteString("- ")
+			continue
+		}
+		func() {
+			defer func() {
+				if p := recover(); p != nil {
+					fmt.Fprintf(&sb, "UNRESOLVABLE(%v) ", p)
+				}
+			}()
+			owner, idx := mi.Engine.LookupFunction(tmp, tid, uint32(i))
+			if owner == mi {
+				fmt.Fprintf(&sb, "f%d ", idx)
+			} else {
+				fmt.Fprintf(&sb, "FOREIGN:f%d ", idx)
+			}
+		}()
+	}
+	return sb.String()
+}
+
 // wordResult is what one execution of a merged word yields.
 type wordResult struct {
 	results   [][]string // per instance: result of each of its steps, in order
 	final     []obs      // per instance
 	sharedOut []string   // Shared config only: the chunk that each step appended to the one configured stdout writer
+	abs       []string   // failures of the absolute oracle (fresh-instance state, zero-filled grown pages)
 }
 
 // runWord executes a merged word with fresh instances in world w and closes the instances afterwards.
@@ -556,6 +661,7 @@ func (w *world) runWord(word []step) wordResult {
 	for j := range w.stdout {
 		w.stdout[j].Reset()
 	}
+	w.abs = nil
 	switch w.c.Policy {
 	case "eager":
 		for j := 0; j < n; j++ {
@@ -576,7 +682,14 @@ func (w *world) runWord(word []step) wordResult {
 		r := "not-instantiated"
 		if in.instErr == "" {
 			w.hostSaw = w.hostSaw[:0]
+			oldLen := -1
+			if opNames[s.Op] == "grow" && in.mi.MemoryInstance != nil {
+				oldLen = len(in.mi.MemoryInstance.Buffer)
+			}
 			r = in.call(in.fn(s.Op))
+			if oldLen >= 0 {
+				w.checkGrown(s.I, in, oldLen)
+			}
 			// which module were the module-taking host functions handed as "the caller"?
 			for _, m := range w.hostSaw {
 				who := ";host-saw:UNKNOWN-MODULE"
@@ -608,5 +721,6 @@ func (w *world) runWord(word []step) wordResult {
 			in.mod.Close(ctx)
 		}
 	}
+	res.abs = w.abs
 	return res
 }
